@@ -125,6 +125,11 @@ empty rows yields) -/
 def getRows (s : Sheet) : List (List Val) :=
   flush (s.foldl rowStep ⟨0, 0, ⟨0, []⟩, [], false⟩)
 
+/-- `GetRows` returns `ErrMaxRows` (with the rows read so far): a `<row>` whose `r` exceeds
+`TotalRows` was met by `Rows.Next` or `Rows.Columns` -/
+def getRowsErr (s : Sheet) : Bool :=
+  Facts.C04.getRowsReturnsMaxRows && (s.foldl rowStep ⟨0, 0, ⟨0, []⟩, [], false⟩).stopped
+
 /-! ## Impl: the column reader -/
 
 /-- `columnXMLHandler`: `totalCols` = largest effective column of any `<c>` -/
